@@ -7,6 +7,8 @@ RUNS = {"quick": 5000, "thorough": 120000}
 BUDGET_S = {"quick": 50, "thorough": 840}
 CHUNK = 50
 RULE = ("One evaluation = one seeded history on a generated workflow (1-8 targets; container shapes str/list/nested/dict/dict-with-empty-group; path spellings plain, ./x, zz/../x, absolute; spec hashing on in half of the runs) against a simulated Slurm/SGE/LSF: initial per-file presence and ages (ties by construction on a coarse timestamp grid of 1/1024..2 s), gwf run (also with the k-th submission rejected) / gwf touch / job start / finish (clock-skewed nodes) / source modification / output deletion / single-file touch / spec edit, files dated 1970-01-01 (mtime 0), tuple and dict-view containers, interleaved with `gwf status`. Oracle at every status: for each target whose latest job is finished-ok or unknown and whose dependencies are complete, reported status == (M_stale ? shouldrun : completed) with M_stale the statement written out over the set of declared paths and the oracle's own hash records. Non-trivial = at least one file-based decision was checked; distinct = different event-log digest. Sampling, not the bounded-exhaustive enumeration the property text mentions.")
+RULE += (" Histories also contain interrupted or failing gwf invocations (hard kill at a seam event, Ctrl-C, ENOSPC, a failing or "
+         "unreachable scheduler command) - only the invocations after them are judged - and 1-2 % of the runs use 140-260 targets.")
 PROFILE = dict(
     nontrivial_probes=['file_based_decisions'],
     sizes=[1, 2, 3, 3, 4, 4, 5, 6, 8, 20],
